@@ -312,6 +312,19 @@ def cell_key(size, x, y, z):
     return tuple(out)
 
 
+def _outside(a, size):
+    """How far the atom lies outside the cell it is registered in (0 if
+    inside).  A full-turn rotation returns an atom to within rounding error of
+    where it was registered; only a real displacement counts as stale."""
+    d = 0.0
+    for v, k in zip((a.x, a.y, a.z), a.cell):
+        if v < k:
+            d = max(d, k - v)
+        elif v > k + size:
+            d = max(d, v - (k + size))
+    return d
+
+
 def run_pipeline(case):
     from pdb2pqr import cells as cellmod
     from pdb2pqr import debump
@@ -363,8 +376,10 @@ def run_pipeline(case):
                  + (atom.z - b.z) ** 2) ** 0.5
             if d < size and id(b) not in got:
                 counts["missed"] += 1
-                stale_q = atom.cell != cell_key(size, atom.x, atom.y, atom.z)
-                stale_b = b.cell != cell_key(size, b.x, b.y, b.z)
+                stale_q = (atom.cell != cell_key(size, atom.x, atom.y, atom.z)
+                           and _outside(atom, size) > 1e-6)
+                stale_b = (b.cell != cell_key(size, b.x, b.y, b.z)
+                           and _outside(b, size) > 1e-6)
                 why = ("query-atom-stale" if stale_q else
                        "neighbour-stale" if stale_b else "cell-arithmetic")
                 viol.append((f"C14/pipeline/missed-neighbour/{why}/"
@@ -395,6 +410,7 @@ def run_pipeline(case):
                 if a.cell is None:
                     continue
                 if a.cell != cell_key(size, a.x, a.y, a.z) \
+                        and _outside(a, size) > 1e-6 \
                         and id(a) not in known_stale:
                     known_stale.add(id(a))
                     viol.append((f"C14/pipeline/stale-cell-entry/after="
